@@ -28,7 +28,8 @@ RULE = (
     "with shared or per-site distinct tags/users) and is measured: coverage.counters['sole:<site>'] counts cases in which some object "
     "is referenced from that site only. histories: every ordered pair (X, Y) of the 24 pole collections saved (and loaded) one after "
     "the other in the same process. aliases: the maximal pole and its 1-deviation neighbours with, at every tag site, a second term that "
-    "shares the first term's name but not its label. Non-trivial = document contains at least one cross reference. State = canonical JSON of the "
+    "shares the first term's name but not its label. subclass: the skeleton and maximal pole of every type as an instance of a user subclass of "
+    "the collection class. Non-trivial = document contains at least one cross reference. State = canonical JSON of the "
     "collection + audio_dir flag."
 )
 ASSUMPTIONS = [
@@ -74,6 +75,7 @@ def blocks(tier):
                 out.append({"space": "graphs", "kind": kind, "pole": p, "k": k, "i": i, "of": nchunks})
     for kind in G.KINDS:
         out.append({"space": "aliases", "kind": kind})
+    out.append({"space": "subclass"})
     colls = [(kind, p) for kind in G.KINDS for p in G.POLES]
     for x in range(len(colls)):
         out.append({"space": "histories", "first": list(colls[x])})
@@ -89,6 +91,11 @@ def run_block(block, rec):
             for s in getattr(out, "_sole", ()):
                 rec.count("sole:" + s)
             rec.add(out)
+    elif block["space"] == "subclass":
+        # the collection is an instance of a user subclass of its collection class (one extra field): same document
+        for kind in G.KINDS:
+            for p in ("skeleton", "maximal"):
+                rec.add(run_case({"space": "graphs", "kind": kind, "pole": p, "delta": {}, "dev": 0, "subclass": 1}))
     elif block["space"] == "aliases":
         # terms that share their name but not their label (two tags per site): the maximal pole and its 1-deviation neighbours
         for j, p, delta in G.cases(block["kind"], 1, ["maximal"]):
@@ -97,6 +104,17 @@ def run_block(block, rec):
         for kind in G.KINDS:
             for p in G.POLES:
                 rec.add(run_case({"space": "histories", "first": block["first"], "second": [kind, p]}))
+
+
+_SUB = {}
+
+
+def as_subclass(obj):
+    """The same collection as an instance of a trivial user subclass (one extra field with a default)."""
+    base = type(obj)
+    if base not in _SUB:
+        _SUB[base] = type("Lab" + base.__name__, (base,), {"__annotations__": {"site": str}, "site": "unknown", "__module__": __name__})
+    return _SUB[base](**{f: getattr(obj, f) for f in base.model_fields})
 
 
 class _Out(Out):
@@ -182,7 +200,9 @@ def run_case(case):
             cfg["_term_alias"] = 1
         adir = G.AUDIO_DIR if cfg["audio_dir"] else None
         x0 = G.build(kind, cfg)
-        out.key = [kind, bool(adir), x0.model_dump_json()]
+        if case.get("subclass"):
+            x0 = as_subclass(x0)
+        out.key = [kind, bool(adir), bool(case.get("subclass")), x0.model_dump_json()]
         try:
             io.save(x0, path, audio_dir=adir)
             with open(path) as f:
